@@ -84,3 +84,74 @@ Theorem C16_email_use : forall now caller path_user etok ctx adm allow e, 0 < no
               claim_str (t_ctx t) = Some ctx /\ claim_str (t_eml t) = Some e /\ t_exp t = CNum x /\ now < x.
 Proof. exact email_use_sound. Qed.
 Print Assumptions C16_email_use.
+
+(* ---------------------------------------------------------------- the secrets in force *)
+(* The wrong-kind theorems above speak of the PURPOSE a token was signed for. The code compares secrets,
+   and which secret each purpose uses is fixed at start-up (defaults of api/00-config.go, overridden by
+   api/config.go from the ini file). [verify_*_c cfg] is the same decision logic over a configuration
+   cfg : purpose -> secret; [secrets_distinct cfg] = no purpose (a foreign key included) shares the key of
+   one of the server's three purposes. The harness observes that premise after every way of configuring
+   the server (checks/C16.py, "secrets in force"). *)
+
+(* under ANY configuration: accepted as u => properly made for SOME purpose whose secret is the access secret *)
+Theorem C16_access_any_config : forall cfg now t u e c m, 0 < now -> verify_access_c cfg now true (Some t) = VOk u e c m ->
+  proper now (t_key t) t /\ cfg (t_key t) = cfg KAccess /\ claim_str (t_sub t) = Some u /\ t_exp t = CNum e /\ now < e.
+Proof. exact access_sound_c. Qed.
+Print Assumptions C16_access_any_config.
+
+(* with distinct secrets the configured server is the model of all theorems above (they hold verbatim for verify_*_c cfg) *)
+Theorem C16_distinct_config_is_model : forall cfg, secrets_distinct cfg ->
+  (forall now chk raw, verify_access_c cfg now chk raw = verify_access now chk raw) /\
+  (forall now raw, verify_refresh_c cfg now raw = verify_refresh now raw) /\
+  (forall now ctx raw, verify_email_c cfg now ctx raw = verify_email now ctx raw) /\
+  (forall now raw, login_required_c cfg now raw = login_required now raw) /\
+  (forall now a r pcli, refresh_c cfg now a r pcli = refresh now a r pcli) /\
+  (forall now a b, get_token_info_c cfg now a b = get_token_info now a b) /\
+  (forall now caller pu etok ctx adm allow, email_use_c cfg now caller pu etok ctx adm allow = email_use now caller pu etok ctx adm allow).
+Proof. exact distinct_config_is_model. Qed.
+Print Assumptions C16_distinct_config_is_model.
+
+(* the wrong-kind clause with its premise explicit *)
+Theorem C16_wrong_kind_access_cfg : forall cfg now chk t, secrets_distinct cfg -> t_key t <> KAccess -> verify_access_c cfg now chk (Some t) = VInvalid.
+Proof. exact access_wrong_key_c. Qed.
+Print Assumptions C16_wrong_kind_access_cfg.
+
+Theorem C16_wrong_kind_refresh_cfg : forall cfg now t, secrets_distinct cfg -> t_key t <> KRefresh -> verify_refresh_c cfg now (Some t) = VInvalid.
+Proof. exact refresh_wrong_key_c. Qed.
+Print Assumptions C16_wrong_kind_refresh_cfg.
+
+Theorem C16_wrong_kind_email_cfg : forall cfg now ctx t, secrets_distinct cfg -> t_key t <> KEmail -> verify_email_c cfg now ctx (Some t) = VInvalid.
+Proof. exact email_wrong_key_c. Qed.
+Print Assumptions C16_wrong_kind_email_cfg.
+
+(* the premise is exactly what is needed: wrong-kind tokens are rejected by all three verifiers for all tokens iff the secrets are distinct *)
+Theorem C16_wrong_kind_iff_distinct_secrets : forall cfg, wrong_kind_rejected cfg <-> secrets_distinct cfg.
+Proof. exact wrong_kind_iff_distinct. Qed.
+Print Assumptions C16_wrong_kind_iff_distinct_secrets.
+
+(* whenever a purpose k shares the access secret, EVERY unexpired token properly made for k authenticates as its subject *)
+Theorem C16_shared_secret_accepted : forall cfg now k t u n cli, proper now k t -> cfg k = cfg KAccess ->
+  t_sub t = CStr u -> t_exp t = CNum n -> now < n -> claim_str (t_cli t) = Some cli ->
+  verify_access_c cfg now true (Some t) = VOk u n cli 0.
+Proof. exact shared_secret_accepted. Qed.
+Print Assumptions C16_shared_secret_accepted.
+
+(* without the premise the wrong-kind theorem fails in the model: with the refresh (and e-mail) secret defaulting to the
+   access secret, a genuine refresh token is an access token of its subject for the verifier, the login-required
+   wrappers and token-info *)
+Theorem C16_distinct_secrets_needed_refuted :
+  exists cfg now t u e c, t_key t = KRefresh /\ verify_refresh_c cfg now (Some t) = VOk u e c 0 /\
+    verify_access_c cfg now true (Some t) = VOk u e c 0 /\ login_required_c cfg now (Some t) = u /\ u <> GUEST /\
+    get_token_info_c cfg now (Some t) (Some t) = Some u.
+Proof. exact distinct_secrets_needed. Qed.
+Print Assumptions C16_distinct_secrets_needed_refuted.
+
+(* all cross-uses of the tokens the server itself issues (CreateToken / CreateRefreshToken / CreateEmailToken), for every
+   configuration with distinct secrets, user, client info, address and contexts: accepted exactly by the verifier of its kind
+   (and, for e-mail tokens, of its context) *)
+Theorem C16_issued_cross_use : forall cfg now k u cli eml ctx vctx, secrets_distinct cfg ->
+  (verify_access_c cfg now true (Some (issue now k u cli eml ctx)) <> VInvalid <-> k = KAccess) /\
+  (verify_refresh_c cfg now (Some (issue now k u cli eml ctx)) <> VInvalid <-> k = KRefresh) /\
+  (verify_email_c cfg now vctx (Some (issue now k u cli eml ctx)) <> VInvalid <-> k = KEmail /\ ctx = vctx).
+Proof. exact issued_cross_use. Qed.
+Print Assumptions C16_issued_cross_use.
